@@ -182,7 +182,7 @@ let class_name = function
 
 let monitor_table : (string * (config option -> obs -> event list -> bool)) list = [
   ("c01", c01_ok); ("c02", c02_ok); ("c03", c03_ok); ("c04", c04_ok); ("c05", c05_ok);
-  ("c06", c06_ok); ("c07", c07_ok); ("c08", c08_ok); ("c09", c09_ok); ("c20", c20_ok) ]
+  ("c06", c06_ok); ("c07", c07_ok); ("c08", c08_ok); ("c09", (fun raw o0 tr -> c09_ok raw o0 tr && c09D_ok raw o0 tr)); ("c20", c20_ok) ]
 
 let first_fail (ok : event list -> bool) (evs : event list) : int =
   let n = List.length evs in
@@ -262,7 +262,8 @@ let () =
             let idx = if ok then -1 else first_fail (fun evs -> f h.h_raw o0 evs) h.h_events in
             Printf.sprintf "m:%s %d %d" name (if ok then 1 else 0) idx) monitor_table in
     let flags = match h.h_obs with
-      | Some o0 -> Printf.sprintf " f:k_RES %d" (if known_RES h.h_raw o0 h.h_events then 1 else 0)
+      | Some o0 -> Printf.sprintf " f:k_RES %d f:k_RR2 %d" (if known_RES h.h_raw o0 h.h_events then 1 else 0)
+                     (if known_RR2 h.h_raw o0 h.h_events then 1 else 0)
       | None -> "" in
     Printf.printf "hist %d line %d nev %d acc %s %s%s\n" i h.h_line nev
       (match acc with None -> "ok" | Some (k, c) -> Printf.sprintf "div %d %s" k c)
@@ -277,7 +278,7 @@ let () =
   | None -> ()
   | Some oc ->
       output_string oc "From GV Require Import Pool.Model Pool.Observe Pool.Monitors.\nOpen Scope Z_scope.\n";
-      output_string oc "Definition case_ok (raw : option config) (o0 : obs) (tr : list event) (acc : bool) (vs : list bool) : bool :=\n  Bool.eqb (match accept raw init_bal 1%nat tr with None => true | Some _ => false end) acc &&\n  list_eqb Bool.eqb (map (fun pid => monitor pid raw o0 tr) [P01; P02; P03; P04; P05; P06; P07; P08; P09; P20]) vs.\n";
+      output_string oc "Definition case_ok (raw : option config) (o0 : obs) (tr : list event) (acc : bool) (vs : list bool) : bool :=\n  Bool.eqb (match accept raw init_bal 1%nat tr with None => true | Some _ => false end) acc &&\n  list_eqb Bool.eqb (map (fun pid => monitor pid raw o0 tr) [P01; P02; P03; P04; P05; P06; P07; P08] ++ [monitor P09 raw o0 tr && C09D_ok raw o0 tr; monitor P20 raw o0 tr]) vs.\n";
       List.iteri (fun i (h, o0, acc, vs) ->
         Printf.fprintf oc "Definition case_%d : bool := case_ok %s %s %s %s %s.\n" i
           (copt cconfig h.h_raw) (cobs o0) (clist cev h.h_events) (cbool acc) (clist cbool vs)) (List.rev !coq_cases);
